@@ -4,6 +4,7 @@ import (
 	"bufio"
 	"fmt"
 	"os"
+	"path/filepath"
 	"sort"
 	"strings"
 
@@ -74,10 +75,13 @@ func (idx Index) ToFile(indexPath string) error {
 	errPrefix := fmt.Sprintf("writing index to %s", indexPath)
 	// TODO: If we stop relying on the project-wide lock file, this should be
 	// flocked.
-	file, err := os.Create(indexPath)
+	// Write to a temporary file in the same directory and rename it over the
+	// destination, so an interrupted write never leaves a truncated index.
+	file, err := os.CreateTemp(filepath.Dir(indexPath), ".dud-index-*")
 	if err != nil {
 		return errors.Wrap(err, errPrefix)
 	}
+	defer os.Remove(file.Name())
 	defer file.Close()
 
 	// Sort the stage paths so the index file is written deterministically.
@@ -86,7 +90,13 @@ func (idx Index) ToFile(indexPath string) error {
 			return errors.Wrapf(err, "%s: write %s", errPrefix, stagePath)
 		}
 	}
-	return nil
+	if err := file.Chmod(0o644); err != nil {
+		return errors.Wrap(err, errPrefix)
+	}
+	if err := file.Close(); err != nil {
+		return errors.Wrap(err, errPrefix)
+	}
+	return errors.Wrap(os.Rename(file.Name(), indexPath), errPrefix)
 }
 
 // SortStagePaths returns a sorted slice of Stage paths stored in the Index.
